@@ -297,6 +297,11 @@ fn base_problems(rng: &mut StdRng) -> Vec<Problem> {
     let mut lp = out[0].clone();
     lp.P = Csc::zeros(lp.n(), lp.n());
     out.push(lp);
+    // an unconstrained problem: no rows, no cones (the file's consistency then rests on the objective side alone)
+    let n = 3;
+    let pd: Vec<Vec<f64>> = (0..n).map(|i| (0..n).map(|j| if i == j { 2.0 + i as f64 } else if i < j && j == i + 1 { 0.5 } else { 0.0 }).collect()).collect();
+    out.push(Problem { P: Csc::from_dense(&pd, n, n), q: vec![1.0, -2.0, 0.5], A: Csc::zeros(0, n), b: vec![], cones: vec![],
+                       settings: json!({}), tag: "unconstrained".into() });
     out
 }
 
@@ -365,7 +370,7 @@ pub fn fault_events(seed: u64, thorough: bool, dir: &str) -> Vec<Value> {
             sem("A.rowval out of range", "Struct", &|x| { let m = x["A"]["m"].as_u64().unwrap(); x["A"]["rowval"][0] = json!(m + 3); });
             sem("A.rowval last out of range", "Struct", &|x| { let m = x["A"]["m"].as_u64().unwrap(); let l = x["A"]["rowval"].as_array().unwrap().len(); x["A"]["rowval"][l - 1] = json!(m); });
         }
-        sem("A.colptr non-monotone", "Struct", &|x| { let l = x["A"]["colptr"].as_array().unwrap().len(); if l >= 2 { let last = x["A"]["colptr"][l - 1].clone(); x["A"]["colptr"][0] = last; } });
+        if annz > 0 { sem("A.colptr non-monotone", "Struct", &|x| { let l = x["A"]["colptr"].as_array().unwrap().len(); if l >= 2 { let last = x["A"]["colptr"][l - 1].clone(); x["A"]["colptr"][0] = last; } }); }
         sem("A.colptr first nonzero", "Struct", &|x| { x["A"]["colptr"][0] = json!(1); });
         sem("P.colptr too short", "Struct", &|x| { x["P"]["colptr"].as_array_mut().unwrap().pop(); });
         sem("P.nzval extra entry", "Struct", &|x| { x["P"]["nzval"].as_array_mut().unwrap().push(json!(1.0)); });
@@ -416,7 +421,7 @@ pub fn fault_events(seed: u64, thorough: bool, dir: &str) -> Vec<Value> {
         sem("string for number", "Schema", &|x| { x["q"][0] = json!("1.0"); });
         sem("drop key b", "Schema", &|x| { x.as_object_mut().unwrap().remove("b"); });
         sem("rename key cones", "Schema", &|x| { let c = x.as_object_mut().unwrap().remove("cones").unwrap(); x["Cones"] = c; });
-        sem("unknown cone tag", "Schema", &|x| { x["cones"][0] = json!({"HyperCone": 2}); });
+        sem("unknown cone tag", "Schema", &|x| { let c = x["cones"].as_array_mut().unwrap(); if c.is_empty() { c.push(json!({"HyperCone": 2})); } else { c[0] = json!({"HyperCone": 2}); } });
         sem("drop settings", "ok", &|x| { x.as_object_mut().unwrap().remove("settings"); });
         sem("unknown extra key", "ok", &|x| { x["comment"] = json!("hello"); });
         sem("settings wrong type", "Schema", &|x| { x["settings"]["max_iter"] = json!("many"); });
